@@ -5,10 +5,9 @@ import glob, json, os, re, sys
 ROOT = os.path.dirname(os.path.abspath(__file__))
 
 def findings():
-    rows = []
-    for p in sorted(glob.glob(os.path.join(ROOT, "known_findings.d", "*.json"))) + [os.path.join(ROOT, "known_findings.json")]:
-        if os.path.exists(p):
-            rows += json.load(open(p))["findings"]
+    sys.path.insert(0, ROOT)
+    from vlib.runner import load_findings
+    rows = load_findings()
     out = ["| property | id | status | what fails |", "|---|---|---|---|"]
     for f in sorted(rows, key=lambda f: (f["property"], f["status"], f["id"])):
         st = f["status"] + (f" `{f['commit']}`" if f.get("commit") else "")
